@@ -35,13 +35,14 @@ inductive ResKind
   | regionPseudo  -- EpochNotMatch without regions (fabricated when no replica is left, or a store's own)
   | errBudget     -- an error (the Backoffer refused to sleep)
   | errTs         -- the read-ts validator's error
+  | errFatal      -- the sender's own error for an answer it never retries (flashback, raft entry too large, …)
   | errOther      -- anything else (cancelled context, panic, …): never legal for the fault alphabet of C10
   deriving DecidableEq, Repr
 
 inductive Ev
   /-- one RPC attempt: target peer/store (1-based), wire flags, proxy store (0 = none), the real `replica.attempts` of the
-      charged replica after the send (0 = not reported), and the answer -/
-  | send (peer store : Nat) (rr sr retry : Bool) (proxy attObs : Nat) (resp : Resp)
+      charged replica after the send (0 = not reported), the answer class and the answer itself (fault name) -/
+  | send (peer store : Nat) (rr sr retry : Bool) (proxy attObs : Nat) (resp : Resp) (fault : String)
   /-- `replica.onUpdateLeader` lowered an exhausted replica's counter to `a` -/
   | bump (q a : Nat)
   /-- `Backoffer.Backoff` slept `ms` for config `kind` -/
@@ -56,6 +57,7 @@ structure Cfg where
   isWrite : Bool     -- write command
   tsInvalid : Bool   -- validation enabled ∧ read command ∧ the oracle rejects the read ts
   hints : Nat        -- environment: how many leader-hint refills the stores may cause
+  shortRead : Bool   -- read command with a time-out below ReadTimeoutShort (`isReadReqConfigurableTimeout`)
   deriving DecidableEq, Repr
 
 structure State where
@@ -67,12 +69,18 @@ structure State where
   sent : Nat              -- sendReqState.vars.sendTimes
   last : Option Resp      -- answer of the last RPC
   done : Bool
+  owedNow : Option String -- back-off config the handler of the last answer calls before anything else is sent
+  owedBusy : List Nat     -- stores that answered ServerIsBusy and have not been backed off for yet (immediate or pending)
+  busyCredit : Bool       -- a tikvServerBusy back-off happened since the last RPC
+  lastStore : Nat         -- store of the last RPC
+  lastFatal : Bool        -- the last answer is one the sender never retries and turns into its own error
   deriving DecidableEq, Repr
 
 def maxAtt : Nat := Gen.maxReplicaAttempt
 
 def init (c : Cfg) : State :=
-  { cfg := c, att := List.replicate c.n 0, total := 0, excluded := 0, credit := c.hints, sent := 0, last := none, done := false }
+  { cfg := c, att := List.replicate c.n 0, total := 0, excluded := 0, credit := c.hints, sent := 0, last := none, done := false,
+    owedNow := none, owedBusy := [], busyCredit := false, lastStore := 0, lastFatal := false }
 
 /-! ## back-off table (regenerated from config/retry/config.go) -/
 
@@ -127,6 +135,31 @@ def budgetSpent (s : State) : Bool :=
   (s.total - s.excluded ≥ s.cfg.maxSleep) ||
   (Gen.sleepExcluded.any fun e => s.excluded ≥ e.2 && s.excluded ≥ s.cfg.maxSleep)
 
+/-! ## what the handlers of onSendFail / onRegionError owe before the next RPC (branch by branch) -/
+
+def busyKind : String := "tikvServerBusy"
+
+/-- `some k`: the handler itself calls `bo.Backoff(k)` before the loop can send anything again -/
+def owesNow (shortRead : Bool) (fault : String) : Option String :=
+  if fault = "rpcerr" || fault = "down" || fault = "grpccancel" then some "tikvRPC"          -- onSendFail
+  else if fault = "deadline" || fault = "grpcdeadline" then (if shortRead then none else some "tikvRPC")
+  else if fault = "nl" || fault = "rinr" || fault = "merging" then some "regionScheduling"
+  else if fault = "maxts" then some "maxTsNotSynced"
+  else if fault = "diskfull" then some "tikvDiskFull"
+  else if fault = "epochold" then some "regionMiss"
+  else if fault = "recov" then some "regionRecoveryInProgress"
+  else if fault = "witness" then some "isWitness"
+  else if fault = "notinit" then some "regionNotInitialized"
+  else none
+
+/-- ServerIsBusy (`onServerIsBusy`): back-off now or a pending back-off applied before the store is used again;
+    with reason "deadline is exceeded" on a short-time-out read the replica is only flagged -/
+def owesBusy (shortRead : Bool) (fault : String) : Bool :=
+  fault = "busy" || fault = "busyw" || (fault = "busydl" && !shortRead)
+
+def isFatalFault (fault : String) : Bool :=
+  fault = "flashback" || fault = "flashbacknp" || fault = "toolarge" || fault = "badmaxts" || fault = "rpccancel"
+
 /-! ## steps -/
 
 def validPeer (s : State) (p : Nat) : Bool := 1 ≤ p && p ≤ s.cfg.n
@@ -139,14 +172,15 @@ def getAtt (s : State) (p : Nat) : Nat := (s.att[p - 1]?).getD maxAtt
 def afterOk (s : State) : Bool := s.last = some .ok
 
 def stepAllowed (s : State) : Ev → Bool
-  | .send peer _store rr sr retry proxy attObs _resp =>
+  | .send peer store rr sr retry proxy attObs _resp _fault =>
     let c := charged peer proxy
     !s.done && !s.cfg.tsInvalid && !afterOk s &&
     validPeer s peer && validPeer s c &&
     getAtt s c < maxAtt &&
     (attObs = 0 || attObs = getAtt s c + 1) &&
     (retry == decide (0 < s.sent)) &&
-    (!s.cfg.isWrite || (!rr && !sr))
+    (!s.cfg.isWrite || (!rr && !sr)) &&
+    (s.owedNow.isNone && (!s.owedBusy.contains store || s.busyCredit))
   | .bump q a =>
     !s.done && validPeer s q && 0 < s.credit && s.last = some (.nlhint q) && a + 1 = maxAtt
   | .backoff k ms =>
@@ -165,18 +199,26 @@ def stepAllowed (s : State) : Ev → Bool
         !s.cfg.tsInvalid && !afterOk s && (!lastIsResp || s.last = some .regionerr)
      | .errBudget => !s.cfg.tsInvalid && !afterOk s && budgetSpent s && !lastIsResp
      | .errTs => s.cfg.tsInvalid && s.sent = 0 && !lastIsResp
+     | .errFatal => s.lastFatal && !lastIsResp
      | .errOther => false)
 
 def setAtt (l : List Nat) (i v : Nat) : List Nat := l.set i v
 
 def step (s : State) : Ev → State
-  | .send peer _ _ _ _ proxy _ resp =>
+  | .send peer store _ _ _ proxy _ resp fault =>
     let c := charged peer proxy
-    { s with att := setAtt s.att (c - 1) (getAtt s c + 1), sent := s.sent + 1, last := some resp }
+    let rest := s.owedBusy.filter (· != store)
+    { s with att := setAtt s.att (c - 1) (getAtt s c + 1), sent := s.sent + 1, last := some resp,
+             owedNow := owesNow s.cfg.shortRead fault,
+             owedBusy := if owesBusy s.cfg.shortRead fault then store :: rest else rest,
+             busyCredit := false, lastStore := store, lastFatal := isFatalFault fault }
   | .bump q _ =>
     { s with att := setAtt s.att (q - 1) (min (getAtt s q) (maxAtt - 1)), credit := s.credit - 1, last := some .regionerr }
   | .backoff k ms =>
-    { s with total := s.total + ms, excluded := if (kindLimit k).isSome then s.excluded + ms else s.excluded }
+    { s with total := s.total + ms, excluded := if (kindLimit k).isSome then s.excluded + ms else s.excluded,
+             owedNow := if s.owedNow = some k then none else s.owedNow,
+             busyCredit := s.busyCredit || k = busyKind,
+             owedBusy := if k = busyKind then s.owedBusy.filter (· != s.lastStore) else s.owedBusy }
   | .result _ _ => { s with done := true }
 
 /-- run a trace; `none` as soon as an event is not allowed -/
@@ -212,13 +254,13 @@ def propBounded (c : Cfg) (es : List Ev) : Bool := countSends es ≤ sendBound c
 
 def propWriteFlags (c : Cfg) (es : List Ev) : Bool :=
   es.all fun e => match e with
-    | .send _ _ rr sr _ _ _ _ => !c.isWrite || (!rr && !sr)
+    | .send _ _ rr sr _ _ _ _ _ => !c.isWrite || (!rr && !sr)
     | _ => true
 
 /-- every send after the first carries the retry marker, the first does not; `k` = sends so far -/
 def retryMarkedFrom (k : Nat) : List Ev → Bool
   | [] => true
-  | .send _ _ _ _ retry _ _ _ :: es => (retry == decide (0 < k)) && retryMarkedFrom (k + 1) es
+  | .send _ _ _ _ retry _ _ _ _ :: es => (retry == decide (0 < k)) && retryMarkedFrom (k + 1) es
   | _ :: es => retryMarkedFrom k es
 def propRetryMarked (es : List Ev) : Bool := retryMarkedFrom 0 es
 
@@ -231,11 +273,32 @@ def genuineFrom (prev : Option Ev) (last : Option Resp) : List Ev → Bool
   | [] => true
   | e :: es =>
     (match e with
-     | .result .ok b => b && (match prev with | some (.send _ _ _ _ _ _ _ .ok) => true | _ => false)
+     | .result .ok b => b && (match prev with | some (.send _ _ _ _ _ _ _ .ok _) => true | _ => false)
      | .result .regionStore b => b && (match last with | some .regionerr => true | some (.nlhint _) => true | _ => false)
      | _ => true) &&
-    genuineFrom (some e) (match e with | .send _ _ _ _ _ _ _ r => some r | _ => last) es
+    genuineFrom (some e) (match e with | .send _ _ _ _ _ _ _ r _ => some r | _ => last) es
 def propGenuine (es : List Ev) : Bool := genuineFrom none none es
+
+/-- is there a back-off of config `k` before the next RPC (to any store if `scope = none`, to store `st` if `some st`)? -/
+def backoffBeforeSend (k : String) (scope : Option Nat) : List Ev → Bool
+  | [] => true
+  | .backoff k' _ :: es => k' = k || backoffBeforeSend k scope es
+  | .send _ st _ _ _ _ _ _ _ :: es =>
+    (match scope with
+     | none => false
+     | some s0 => st != s0 && backoffBeforeSend k scope es)
+  | _ :: es => backoffBeforeSend k scope es
+
+/-- every retry path switches peer or consumes back-off budget: after an answer for which the handler owes a back-off, no RPC
+    (to any store / to the same store) follows before a back-off of that config -/
+def propBackoffDiscipline (shortRead : Bool) : List Ev → Bool
+  | [] => true
+  | e :: es =>
+    (match e with
+     | .send _ st _ _ _ _ _ _ f =>
+       (match owesNow shortRead f with | some k => backoffBeforeSend k none es | none => true) &&
+       (!owesBusy shortRead f || backoffBeforeSend busyKind (some st) es)
+     | _ => true) && propBackoffDiscipline shortRead es
 
 /-! ## line protocol (driver side) -/
 
@@ -258,6 +321,7 @@ def parseRes (k d : String) : Option ResKind :=
   | "regionerr", "pseudo" => some .regionPseudo
   | "err", "tsinvalid" => some .errTs
   | "err", "other" => some .errBudget
+  | "err", "fatal" => some .errFatal
   | "err", _ => some .errOther
   | "panic", _ => some .errOther
   | "nil", _ => some .errOther
@@ -265,10 +329,10 @@ def parseRes (k d : String) : Option ResKind :=
 
 def parseEv (w : List String) : Option Ev :=
   match w with
-  | ["send", p, st, rr, sr, rt, px, a, r] => do
+  | ["send", p, st, rr, sr, rt, px, a, r, f] => do
     let p ← p.toNat?; let st ← st.toNat?; let rr ← parseBool rr; let sr ← parseBool sr; let rt ← parseBool rt
     let px ← px.toNat?; let a ← a.toNat?; let r ← parseResp r
-    pure (.send p st rr sr rt px a r)
+    pure (.send p st rr sr rt px a r f)
   | ["bump", q, a] => do pure (.bump (← q.toNat?) (← a.toNat?))
   | ["backoff", k, ms] => do pure (.backoff k (← ms.toNat?))
   | ["result", k, d, b] => do pure (.result (← parseRes k d) (← parseBool b))
@@ -279,7 +343,9 @@ def isWriteCmd (c : String) : Bool := c == "prewrite" || c == "commit" || c == "
 def isHintFault (f : String) : Bool := f == "nl1" || f == "nl2" || f == "nl3" || f == "nlnext"
 def faultNames : List String :=
   ["ok", "rpcerr", "down", "deadline", "nl", "nl1", "nl2", "nl3", "nlnext", "nlx", "epoch", "epochr", "epochold", "rnf",
-   "busy", "busyw", "busydl", "stale", "snm", "dnr", "maxts", "diskfull", "dlmsg", "unk"]
+   "busy", "busyw", "busydl", "stale", "snm", "dnr", "maxts", "diskfull", "dlmsg", "unk",
+   "undet", "recov", "witness", "flashback", "flashbacknp", "toolarge", "badmaxts", "knir", "bucket", "notinit", "rinr",
+   "merging", "mismatch", "rpccancel", "grpccancel", "grpcdeadline"]
 def modeNames : List String := ["leader", "follower", "mixed", "learner", "prefer", "stale"]
 
 /-- the outcome table of `pdOracle.ValidateReadTS` for the harness' four ts classes -/
